@@ -356,6 +356,9 @@ func checkC14(w *World, r *Report) {
 	r.Rule("R14.9", "deviate not-supported is exclusive wherever it stands among the deviate statements: its application is dominated by the unconditional test `more than one deviate ⇒ error`", 1)
 	r.guard("R14.9", func() { c14NotSupportedExclusive(w, r) })
 
+	r.Rule("R14.10", "deviate properties are checked one by one against the target as edited so far: doDeviate calls isAllowed and then propertyAction for a property within the same loop iteration", 1)
+	r.guard("R14.10", func() { c14DeviateInterleaved(w, r) })
+
 	r.Rule("R14.6", "deviate edits hit the statement they name: delete removes the child found by type and argument, replace substitutes by type after checking existence, add appends", 3)
 	r.guard("R14.6", func() {
 		dd := w.Method("compile", "deviateDelete", "propertyAction")
